@@ -537,3 +537,12 @@ def replay(ctx, data):
     trig = bytes.fromhex(w["trig"]) if w.get("trig") else None
     r, enc, dec = O.c01_eval(c, L[c.name], v, trig)
     return r is None
+
+
+# W22 (RESERVED / NRC-CONST as constructors of the nested tier: Desc2R; tenth leaf kind A_UNICODE2STRING low-high) — appended
+LEAN_TARGETS = LEAN_TARGETS + ["OdxVerif.Props.C01Nested2R"]
+THEOREMS = THEOREMS + ["OdxVerif.Codec." + t for t in [
+    "C01_roundtrip_nested2R", "C01_roundtrip_nested2R_whole", "C01_roundtrip_nested2R_of_desc2", "C01_nrcconst_alone_not_decodable",
+    "descs2R_roundtrip_msg_cur", "Desc2R.okM", "Desc2R.decPre_of", "Descs2R.decPre_top", "Descs2R.okAllTop",
+    "Comp.ofU16LE_ok", "U16.encodeParam_eq", "U16.decodeParam_eq", "Comp.ofU16LE_val",
+    "exRes_ok", "exRes_wire", "exRes_enc", "exResOverlap_ok", "exNrc_ok", "exU16Req_ok", "exU16Req_enc"]]
